@@ -59,8 +59,15 @@ func gen1(t *rapid.T) Case {
 		c.Spec = eng.Spec{Options: int32(o), Pattern: ast.Print(root, ast.PrintOpts{})}
 		c.AST = root
 	} else {
-		spec, root, _ := gen.FullSpec(t, cfg, true, true, true)
+		spec, root, base := gen.FullSpec(t, cfg, true, true, true)
 		c.Spec, c.AST = spec, root
+		if root != nil && !base.X && rapid.Bool().Draw(t, "wrapcap") {
+			// make sure captures exist: wrap the pattern in a group and add a captured loop
+			root = ast.Seq(ast.Group(ast.GCap, root), ast.Quant(ast.Group(ast.GCap, ast.Dot()), 0, 2, rapid.Bool().Draw(t, "lazy")))
+			ast.Annotate(root, base, false)
+			c.Spec.Pattern = ast.Print(root, ast.PrintOpts{ECMA: regexp2.RegexOptions(spec.Options)&regexp2.ECMAScript != 0})
+			c.AST = root
+		}
 	}
 	alpha := []rune("ab()<> \n")
 	if c.AST != nil {
